@@ -41,6 +41,9 @@ class Ctx:
     self.params = []        # representatives, index = class id
 
   def name(self, s):
+    """name <-> (root, suffix tokens): "_quantized"->0, "_dequant"->1,
+    "_<k>" (k>=1, no leading zero) -> 2+k; bijective."""
+    import re
     sfx = []
     while True:
       for k, v in SFX.items():
@@ -49,6 +52,11 @@ class Ctx:
           s = s[:-len(k)]
           break
       else:
+        m = re.search(r'_([1-9][0-9]*)$', s)
+        if m and s[:m.start()].endswith(tuple(SFX)):   # "_k" only right after a transformation suffix
+          sfx.insert(0, 2 + int(m.group(1)))
+          s = s[:m.start()]
+          continue
         break
     return self.roots(s), sfx
 
@@ -251,7 +259,13 @@ def gen_cases(rng, n):
         desc = gr.apply_rules(qt, rules)
         if not desc:
           continue
-      stats = gr.synthetic_stats(mb, rng) if qt.need_calibration else None
+      stats, real = None, True
+      if qt.need_calibration:
+        if rng.random() < 0.75:
+          stats = gr.own_stats(mb, gg.random_inputs(mb, rng, rng.choice([1, 1, 2])))
+        else:
+          stats, real = gr.synthetic_stats(mb, rng), False
+      info = dict(info, real_stats=real)
       yield mb, qt, stats, desc, info
 
 
@@ -323,9 +337,11 @@ def main():
     if not isinstance(m_out, Exception):
       dist['returned'] += 1
       bad = og.check_wf(m_out) + og.check_skeleton(m_in, m_out, io_covered(qt, m_in))
-      r = og.run_interpreter(out_bytes)
-      if r[0] != 'ok':
-        bad.append(('C01:interp-' + r[0], str(r[1])[:200]))
+      if info['real_stats']:      # synthetic statistics are outside C01's quantifier
+        dist['interpreter_runs'] += 1
+        r = og.run_interpreter(out_bytes)
+        if r[0] != 'ok':
+          bad.append(('C01:interp-' + r[0], str(r[1])[:200]))
       for key, msg in bad[:2]:
         viol.append({'key': key, 'what': msg, 'input': {
             'model_seed_case': dist['cases'], 'recipe': desc,
